@@ -361,16 +361,39 @@ package graph
 // proved; the cached counts (M, Degrees) of these hand-filled structs are
 // covered by the bounded stand-in graph:constructors.
 
+//@ lemma cntPosOnes(s []byte, k int)
+//@   requires 0 <= k && k <= len(s) && (forall t in 0..k: s[t] > 0)
+//@   ensures cntPos(s, k) == k
+//@   by induction k
+//@   pattern cntPos(s, k)
+//@ lemma rowCntOnes(s []byte, v int, k int)
+//@   requires 0 <= k && k <= v && v <= 16777216 && tri(v) + k <= len(s) && (forall t in 0..len(s): s[t] > 0)
+//@   ensures rowCnt(s, v, k) == k
+//@   by induction k using triMono
+//@   opt axiomatize=tri
+//@   pattern rowCnt(s, v, k)
+//@ lemma colCntOnes(s []byte, v int, k int)
+//@   requires 0 <= v && v < k && k <= 16777216 && tri(k) <= len(s) && (forall t in 0..len(s): s[t] > 0)
+//@   ensures colCnt(s, v, k) == k - v - 1
+//@   by induction k using triMono
+//@   opt axiomatize=tri
+//@   pattern colCnt(s, v, k)
+
 //@ func CompleteGraph
 //@   requires 0 <= n && n <= 16777216
 //@   ensures fresh(result) && sizesDense(result) && result.NumberOfVertices == n
 //@   ensures forall k in 0..tri(n): result.Edges[k] == 1
+//@   ensures [counts] countsOK(result)
+//@   opt lemmas=triMono,cntPosOnes,rowCntOnes,colCntOnes
+//@   opt axiomatize=tri
 //@   loop 1
-//@     invariant -1 <= rangeindex && (rangeindex < len(degrees) || (len(degrees) == 0 && rangeindex == -1)) && len(degrees) == n && len(edges) == tri(n)
+//@     invariant -1 <= rangeindex && (rangeindex < len(degrees) || (len(degrees) == 0 && rangeindex == -1)) && len(degrees) == n && len(edges) == tri(n) && m == tri(n)
+//@     invariant forall t in 0..rangeindex+1: degrees[t] == n - 1
 //@     decreases len(degrees) - rangeindex
 //@   loop 2
-//@     invariant 0 <= i && i <= len(edges) && len(degrees) == n && len(edges) == tri(n)
+//@     invariant 0 <= i && i <= len(edges) && len(degrees) == n && len(edges) == tri(n) && m == tri(n) && fresh(edges) && fresh(degrees)
 //@     invariant forall k in 0..i: edges[k] == 1
+//@     invariant forall t in 0..n: degrees[t] == n - 1
 //@     decreases len(edges) - i
 
 // Path: i ~ i+1
